@@ -131,7 +131,49 @@ func oracleC11(ctx *harness.Ctx, cs *harness.Case) (ds []harness.Discrepancy) {
 	return
 }
 
+// c11PlainComments: ASCII-only lists without quotes whose only special feature is ONE comment (of each style) that contains a ';',
+// at every gap of a two-statement list. (Anything that decides "this input needs no lexer" from a scan for quotes and comment
+// openers has to know every comment style; the generated lists nearly always mix styles and quotes.)
+func c11PlainComments(ctx *harness.Ctx) {
+	lists := map[string][]string{
+		"ParseStatements": {"SELECT 1", "SELECT a FROM t WHERE b = 2", "DELETE FROM t WHERE TRUE", "CREATE TABLE t (a INT64) PRIMARY KEY (a)"},
+		"ParseDDLs":       {"DROP TABLE t", "CREATE TABLE t (a INT64) PRIMARY KEY (a)", "CREATE INDEX i ON t (a)"},
+		"ParseDMLs":       {"DELETE FROM t WHERE TRUE", "UPDATE t SET a = 1 WHERE TRUE", "INSERT INTO t (a) VALUES (1)"},
+	}
+	comments := []string{"# one; not two\n", "-- one; two\n", "// x; y\n", "/* a; b */", "#;\n", "--;\n", "/*;*/", "# a ; b ; c\n"}
+	idx := 0
+	for _, le := range []string{"ParseStatements", "ParseDDLs", "ParseDMLs"} {
+		for i, s1 := range lists[le] {
+			for j, s2 := range lists[le] {
+				if (i+j)%2 == 1 {
+					continue
+				}
+				for _, c := range comments {
+					first := strings.SplitN(s1, " ", 2)
+					for _, src := range []string{
+						first[0] + " " + c + first[1] + ";\n" + s2,
+						s1 + " " + c + ";\n" + s2,
+						s1 + "; " + c + s2,
+						s1 + ";\n" + s2 + " " + c,
+						s1 + " " + c + "; " + c + s2 + ";" + c,
+					} {
+						idx++
+						if idx%ctx.Of != ctx.Shard {
+							continue
+						}
+						cs := &harness.Case{Leg: "plain-comments", Entry: le, Input: src}
+						ctx.Eval(1)
+						ctx.NonTrivial(harness.Hash(le, src))
+						ctx.Check(nil, cs, oracleC11(ctx, cs))
+					}
+				}
+			}
+		}
+	}
+}
+
 func runC11(ctx *harness.Ctx) {
+	ctx.Leg("plain-comments", func() { c11PlainComments(ctx) })
 	useAvoid(ctx)
 	seps := []string{";", ";", "; ", ";\n", " ; ", ";;", "; /* c */ ", ";-- c\n", "\n;\n", " /* ; */ ; ", ";#x\n;"}
 	ctx.Rapid("lists", ctx.Pick(8000, 150000), func(t *rapid.T) {
